@@ -6,7 +6,7 @@ from sa.loader import AnalysisError, norm, walk_local
 from sa.cfg import cfg_of
 from sa.pathsum import summaries
 from sa.spec import logical as spec
-from .common import analysis, names_in
+from .common import analysis, names_in, assigned_values
 from .c02 import fixed_gate
 
 PROP = "C16"
@@ -148,18 +148,46 @@ def run(ctx):
         ok = len(tup) == 1 and norm(tup[0].value) == f"{f.pos_params[0]}.as_tuple()"
         ctx.check("C16.R4", f"{name}: (sign, digits, exp) = data.as_tuple() of the datum itself", ok, f.where(tup[0]) if tup else f.where(), f"{name}: {[norm(t) for t in tup]}", "the digits are taken from a derived value (normalize/quantize round to the ambient decimal context: more than 28 digits are silently rounded before the checks)")
         raises = [n for n in walk_local(f.node) if isinstance(n, ast.Raise)]
-        deps = []
+        # the guards of the raises with single-assignment locals replaced by what they stand for: independent of
+        # whether precision / scale / delta are held in variables
+        import copy as _copy
+
+        def resolved(e, depth=3):
+            e = _copy.deepcopy(e)
+            for _ in range(depth):
+                changed = False
+
+                class S(ast.NodeTransformer):
+                    def visit_Name(self, n):
+                        nonlocal changed
+                        if isinstance(n.ctx, ast.Load) and n.id not in f.params:
+                            vals = assigned_values(f.node, n.id)
+                            if len(vals) == 1 and not any(isinstance(x, ast.Name) and x.id == n.id for x in ast.walk(vals[0])):
+                                changed = True
+                                return _copy.deepcopy(vals[0])
+                        return n
+
+                e = S().visit(e)
+                if not changed:
+                    break
+            return norm(e)
+
+        gtexts = []
         for r in raises:
-            d = set()
+            parts = []
             for (t, lab) in cfg.guards_of(cfg.node_of(r)):
-                if t.kind == "test" and lab == "true":
-                    d |= names_in(t.ast)
-            deps.append(d)
-        ctx.check("C16.R4", f"{name}: rejects more digits than the precision", any({"digits", "precision"} <= d for d in deps), f.where(), f"{name}: raise guards {[sorted(d) for d in deps]}", "a decimal with more significant digits than the precision must raise")
-        ctx.check("C16.R4", f"{name}: rejects more fractional digits than the scale", any(({"exp", "scale"} <= d) or ({"delta"} <= d and any(isinstance(n, ast.Assign) and norm(n) == "delta = exp + scale" for n in walk_local(f.node))) for d in deps), f.where(), f"{name}: raise guards {[sorted(d) for d in deps]}", "a decimal with more fractional digits than the scale must raise")
-        for pn, key in (("precision", "precision"), ("scale", "scale")):
-            srcs = [norm(n.value) for n in walk_local(f.node) if isinstance(n, ast.Assign) and norm(n.targets[0]) == pn]
-            ctx.check("C16.R4", f"{name}: {pn} comes from the schema", len(srcs) == 1 and f"'{key}'" in srcs[0] and f.pos_params[1] in srcs[0], f.where(), f"{name}: {pn} = {srcs}", f"{pn} is not the schema's")
+                if t.kind == "test" and lab in ("true", "false"):
+                    parts.append(resolved(t.ast))
+            gtexts.append(" && ".join(parts))
+        S_ = f.pos_params[1]
+        if len(tup) == 1:
+            dv, ev = norm(tup[0].targets[0].elts[1]), norm(tup[0].targets[0].elts[2])
+            prec_ok = any(f"len({dv})" in g and "'precision'" in g and S_ in g for g in gtexts)
+            scale_ok = any(re.search(rf"\b{re.escape(ev)}\b", g) and "'scale'" in g and S_ in g for g in gtexts)
+            ctx.check("C16.R4", f"{name}: rejects more digits than the precision", prec_ok, f.where(), f"{name}: raise guards {gtexts}", "a decimal with more significant digits than the schema's precision must raise")
+            ctx.check("C16.R4", f"{name}: rejects more fractional digits than the scale", scale_ok, f.where(), f"{name}: raise guards {gtexts}", "a decimal with more fractional digits than the schema's scale must raise")
+        else:
+            ctx.unrecognised("C16.R4", f"{name}: precision / scale checks", f.where(), "the (sign, digits, exponent) unpacking of the datum was not found")
 
     ctx.rule("C16.R5", "fixed decimal: a raise comparing the value's bit length with the size dominates every emission; write_fixed's size gate follows", floor=2)
     f = lwm.functions["prepare_fixed_decimal"]
@@ -170,15 +198,10 @@ def run(ctx):
     gates = []
     for t in cfg.nodes:
         if t.kind == "test" and isinstance(t.ast, ast.Compare):
-            nm = names_in(t.ast)
-            dep = set(nm)
-            # one step of def-use: names defined from bit_length / size
-            for n in walk_local(f.node):
-                if isinstance(n, ast.Assign) and isinstance(n.targets[0], ast.Name) and n.targets[0].id in nm:
-                    dep |= names_in(n.value)
-                    if "bit_length" in norm(n.value):
-                        dep.add("<bit_length>")
-            if "<bit_length>" in dep and "size" in dep | {x for x in dep}:
+            # the test, with single-assignment locals replaced by what they stand for, relates the value's bit length
+            # to the schema's size
+            rt = resolved(t.ast)
+            if ".bit_length()" in rt and "'size'" in rt:
                 raising = [m for (m, lab) in t.succ if lab == "true"]
                 if raising and all(cfg.exit not in ({m} | cfg.reachable_from(m)) for m in raising):
                     gates.append(t)
